@@ -120,7 +120,8 @@ func cmdCheck(args []string) {
 	if t := os.Getenv("VERIF_TIER"); t == "quick" || t == "thorough" {
 		tier = t
 	}
-	os.Exit(runCheck(prop, tier, repo, nil, true))
+	code, _ := runCheck(prop, tier, repo, nil, true)
+	os.Exit(code)
 }
 
 type checkOutcome struct {
@@ -132,20 +133,20 @@ type checkOutcome struct {
 }
 
 // runCheck runs one property check; overlay != nil is used by the self-test (mutants in memory).
-func runCheck(prop, tier, repo string, overlay map[string][]byte, writeEvidence bool) int {
+func runCheck(prop, tier, repo string, overlay map[string][]byte, writeEvidence bool) (int, *checkOutcome) {
 	t0 := time.Now()
 	root := verifRoot()
 	spec := propSpecs[prop]
 	if spec == nil {
 		fmt.Fprintf(os.Stderr, "property %s has no check (not claimed)\n", prop)
-		return 2
+		return 2, nil
 	}
 	seed := 0
 	fmt.Sscanf(os.Getenv("VERIF_SEED"), "%d", &seed)
 	eng, err := LoadEngine(repo, spec.Patterns, overlay)
 	if err != nil {
 		fmt.Fprintln(os.Stderr, "govc: cannot load repository:", err)
-		return 2
+		return 2, nil
 	}
 	loadS := time.Since(t0).Seconds()
 	out := &checkOutcome{}
@@ -173,6 +174,9 @@ func runCheck(prop, tier, repo string, overlay map[string][]byte, writeEvidence 
 	}
 	sort.Strings(keys)
 	replayDir := filepath.Join(root, "replays", prop)
+	if !writeEvidence {
+		replayDir = filepath.Join(os.TempDir(), fmt.Sprintf("govc-selftest-replays-%d", os.Getpid()), prop)
+	}
 	os.MkdirAll(replayDir, 0o755)
 	smtDir := filepath.Join(os.TempDir(), fmt.Sprintf("govc-%s-%d", prop, os.Getpid()))
 	defer os.RemoveAll(smtDir)
@@ -334,6 +338,12 @@ func runCheck(prop, tier, repo string, overlay map[string][]byte, writeEvidence 
 		data, _ := json.MarshalIndent(ev, "", " ")
 		os.WriteFile(filepath.Join(root, "evidence", prop+".json"), data, 0o644)
 	}
+	if !writeEvidence { // self-test run: the caller inspects the outcome
+		if len(out.violations) > 0 {
+			return 1, out
+		}
+		return 0, out
+	}
 	for _, k := range out.known {
 		fmt.Println(k)
 	}
@@ -341,20 +351,20 @@ func runCheck(prop, tier, repo string, overlay map[string][]byte, writeEvidence 
 		for _, e := range out.toolErrs {
 			fmt.Fprintln(os.Stderr, "govc: "+e)
 		}
-		return 2
+		return 2, out
 	}
 	if len(out.obligs) == 0 {
 		fmt.Fprintln(os.Stderr, "govc: no obligations generated for", prop)
-		return 2
+		return 2, out
 	}
 	for _, v := range out.violations {
 		fmt.Println(v)
 	}
 	fmt.Fprintf(os.Stderr, "%s %s: %d functions, %d/%d obligations discharged, %d known findings, %d violations, %.1fs\n", prop, tier, len(out.results), discharged, len(out.obligs), len(out.known), len(out.violations), time.Since(t0).Seconds())
 	if len(out.violations) > 0 {
-		return 1
+		return 1, out
 	}
-	return 0
+	return 0, out
 }
 
 func maxInt(a, b int) int {
